@@ -537,7 +537,9 @@ ParseStep(lt, okRet, checkBase) == ParseStepZ(Pre(Ev.z), lt, okRet, checkBase)
 ParseStepOn(z0, lt, okRet) == ParseStepZ(z0, lt, okRet, TRUE)
 
 (* math/big's Float.Parse as a second implementation of the grammar: same accepted set, same detected base *)
-BigOK(lt) == "bigok" \in DOMAIN Ev.ret => (Ev.ret.bigok = lt.ok /\ (lt.ok => Ev.ret.bigb = lt.base))
+(* (only for exponents of at most four digits: big.Float's own exponent range is binary int32, so it rejects     *)
+(* literals such as 1p2279132599 that are in the Decimal's range - a range difference, not a grammar difference) *)
+BigOK(lt) == ("bigok" \in DOMAIN Ev.ret /\ (lt.ok /\ ~lt.inf => Len(lt.exp.mag) <= 4)) => (Ev.ret.bigok = lt.ok /\ (lt.ok => Ev.ret.bigb = lt.base))
 BigBad(lt) == IF BigOK(lt) THEN {} ELSE {<<l, "C12", "math/big-disagrees-with-grammar">>}
 
 TParse ==
